@@ -62,10 +62,13 @@ theorem C20_active_never_reaped (cfg : Cfg) (t0 t : Int) (pre : List Ev) (hm : M
   · omega
   · have := d2 u hu; omega
 
-/-- only the reaper's loop iteration ever changes the status: every other event
-    (client I/O, upstream activity) leaves an open connection open -/
-theorem C20_only_loop_closes (cfg : Cfg) (s : St) (e : Ev) (h : ∀ t, e ≠ .loopIter t) :
-    (step cfg s e).status = s.status := step_status_nonloop cfg s e h
+/-- only the reaper's loop iteration ever reaps: every other event (client I/O of any
+    outcome, upstream activity) leaves an open connection open or tears it down for its
+    own reason (`handle_events` returned `True`), which is not an idle reaping -/
+theorem C20_only_loop_closes (cfg : Cfg) (s : St) (e : Ev) (h : ∀ t, e ≠ .loopIter t)
+    (ho : s.status = .open) :
+    (step cfg s e).status = .open ∨ ∃ t, (step cfg s e).status = .torn t :=
+  step_status_nonloop cfg s e h ho
 
 /-! ## Cadence of the threadless reaper -/
 
@@ -221,6 +224,14 @@ example : (run (implCfg 2048 true) (init 5000) (exPre ++ exSuf)).status = .reape
 example : ∃ t, Ev.loopIter t ∈ exSuf ∧ (5500 : Int) + 2048 < t := ⟨7600, by decide, by decide⟩
 /-- the ghost list really records the I/O (read at 5200, two flushes) -/
 example : ioTimes (implCfg 2048 false) (init 5000) exPre = [5200, 5400, 5500] := by decide
+/-- a read attempt that ends in `ssl.SSLWantReadError` (`clientRead t 0`) or that ends reading while
+    output is still pending (`clientReadEnd`) is client-side activity: 2048 later the connection is kept -/
+example : (run (implCfg 2048 true) (init 0) [.clientRead 3000 0, .loopIter 5048]).status = .open := by decide
+example : ioTimes (implCfg 2048 true) (init 0) [.upstream 10 1, .clientReadEnd 3000, .clientRead 3001 0] = [3000] := by
+  decide
+/-- reads ended and the last chunk flushed: torn down by `handle_events`, not by the reaper -/
+example : (run (implCfg 2048 true) (init 0)
+    [.upstream 10 1, .clientReadEnd 20, .clientWrite 30 true, .loopIter 99999]).status = .torn 30 := by decide
 /-- pending output blocks the reaper however old the last activity is (threaded mode) -/
 example : (run (implCfg 2048 true) (init 0) [.upstream 10 1, .loopIter 100000]).status = .open := by decide
 /-- exactly at the threshold (`now − last_activity = timeout`) the connection stays, one unit later it goes -/
